@@ -579,22 +579,48 @@ Proof.
 Qed.
 
 (* ---- switch 2: reset to a configuration with another file name ---- *)
+(* assert_write_mode: reset is accepted only if the new configuration has the very same write mode *)
+Lemma cap_eqb_refl a : cap_eqb a a = true.
+Proof. destruct a as [n|]; cbn [cap_eqb]; [apply Nat.eqb_refl | reflexivity]. Qed.
+Lemma cap_eqb_neq a b : a <> b -> cap_eqb a b = false.
+Proof.
+  intros H. destruct a as [n|], b as [m|]; cbn [cap_eqb]; try reflexivity; [|contradiction].
+  apply Nat.eqb_neq. intros ->. contradiction.
+Qed.
+Lemma reset_check_ok c c2 : norot c -> norot c2 -> c_cap c2 = c_cap c ->
+  negb (cap_eqb (c_cap c2) (c_cap c) && Bool.eqb (c_async c2) (c_async c)) = false.
+Proof. intros (_ & Ha & _) (_ & Ha2 & _) Hcap. rewrite Hcap, cap_eqb_refl, Ha, Ha2. reflexivity. Qed.
+
 Lemma St_reset c closed cur x c2 :
-  norot c -> logname c2 <> logname c -> assoc (logname c2) closed = None -> St c closed cur x ->
+  norot c -> norot c2 -> c_cap c2 = c_cap c ->
+  logname c2 <> logname c -> assoc (logname c2) closed = None -> St c closed cur x ->
   exists x', step x (OReset c2) = (x', ObsRes 0%N false)
     /\ St c2 (match cur with Some d => closed ++ [(logname c, d)] | None => closed end) None x'.
 Proof.
-  intros Hc Hne Hfree H.
-  inversion H as [w I E1 E2 | w wr data I E1 E2]; subst; rewrite step_sync by exact Hc.
+  intros Hc Hc2 Hcap Hne Hfree H.
+  inversion H as [w I E1 E2 | w wr data I E1 E2]; subst; rewrite step_sync by exact Hc;
+    unfold sync_step, mksys, mkflw, drain_acts; cbn [s_flw s_w s_tl s_dead f_poisoned f_inner f_cfg];
+    rewrite (reset_check_ok c c2 Hc Hc2 Hcap).
   - eexists. split; [reflexivity|]. apply (St_init c2 closed w).
     destruct I as [Q E Ok V Fr]. split; assumption.
-  - unfold sync_step, mksys, mkflw, drain_acts; cbn [s_flw s_w s_tl s_dead f_poisoned f_inner].
-    unfold w_drop. destruct (w_flush_quiet w wr (wa_quiet _ _ _ _ _ I)) as (w1 & Efl & F1 & S1). rewrite Efl. cbn [fst snd].
+  - unfold w_drop. destruct (w_flush_quiet w wr (wa_quiet _ _ _ _ _ I)) as (w1 & Efl & F1 & S1). rewrite Efl. cbn [fst snd].
     eexists. split; [reflexivity|]. apply (St_init c2 _ w1).
     destruct (wact_dropped c closed data w wr w1 I F1 S1) as (Q1 & E1 & Ok1 & V1).
     split; try assumption.
     rewrite assoc_snoc_other by exact Hne. exact Hfree.
 Qed.
+
+(* a reset to another write mode (here: another buffer capacity) is rejected: error result, nothing changes,
+   whether the writer has opened its file already or not, and whatever the world looks like *)
+Theorem reset_other_write_mode_rejected c c2 st w :
+  norot c -> c_cap c2 <> c_cap c ->
+  step (mksys (mkflw c st) w) (OReset c2) = (mksys (mkflw c st) w, ObsRes 1%N false).
+Proof.
+  intros Hc Hcap. rewrite step_sync by exact Hc.
+  unfold sync_step, mksys, mkflw; cbn [s_flw s_w s_tl s_dead f_poisoned f_inner f_cfg].
+  rewrite (cap_eqb_neq _ _ Hcap). reflexivity.
+Qed.
+Print Assumptions reset_other_write_mode_rejected.
 
 (* ---- the end: the writer is dropped ---- *)
 Record Final (files : list (bytes * bytes)) (w : world) : Prop := {
@@ -677,7 +703,8 @@ Definition item_ok (a : astate) (it : item) : Prop :=
   | IOp o => wf_op o
   | IRename m => m <> logname (a_cfg a) /\ assoc m (a_closed a) = None
   | IRemove => True
-  | IReset c2 => norot c2 /\ logname c2 <> logname (a_cfg a) /\ assoc (logname c2) (a_closed a) = None
+  | IReset c2 => norot c2 /\ c_cap c2 = c_cap (a_cfg a)          (* the same write mode, otherwise reset is rejected *)
+                 /\ logname c2 <> logname (a_cfg a) /\ assoc (logname c2) (a_closed a) = None
   end.
 Fixpoint items_ok (a : astate) (items : list item) : Prop :=
   match items with
@@ -713,7 +740,7 @@ Proof.
   - destruct (St_remove c closed cur x Hc H) as (x' & obs & Er & H').
     exists x', obs. split; [exact Er|].
     destruct cur as [d|]; cbn [a_cfg a_closed a_cur]; (split; [exact Hc|]); (split; [exact N | exact H']).
-  - destruct Hok as (Hc2 & Hne & Hfree). destruct (St_reset c closed cur x c2 Hc Hne Hfree H) as (x' & Es & H').
+  - destruct Hok as (Hc2 & Hcap & Hne & Hfree). destruct (St_reset c closed cur x c2 Hc Hc2 Hcap Hne Hfree H) as (x' & Es & H').
     exists x', [ObsRes 0%N false]. cbn [run]. rewrite Es. split; [reflexivity|].
     split; [exact Hc2|]. split; [|exact H'].
     destruct cur as [d|]; [|exact N]. apply nodup_snoc; [exact N|]. eapply St_free; eassumption.
@@ -881,33 +908,39 @@ Fixpoint new_names (items : list item) : list bytes :=
   | IReset c2 :: r => logname c2 :: new_names r
   | _ :: r => new_names r
   end.
-Definition static_ok (items : list item) : Prop :=
-  Forall (fun it => match it with IOp o => wf_op o | IReset c2 => norot c2 | _ => True end) items.
+(* every reset keeps the buffer capacity of the configuration in force (and is synchronous, without rotation) *)
+Fixpoint static_ok (c : config) (items : list item) : Prop :=
+  match items with
+  | [] => True
+  | IOp o :: r => wf_op o /\ static_ok c r
+  | IReset c2 :: r => (norot c2 /\ c_cap c2 = c_cap c) /\ static_ok c2 r
+  | _ :: r => static_ok c r
+  end.
 
-Lemma static_items_ok items : forall a, static_ok items -> NoDup (new_names items) ->
+Lemma static_items_ok items : forall a, static_ok (a_cfg a) items -> NoDup (new_names items) ->
   (forall n, In n (new_names items) -> n <> logname (a_cfg a) /\ assoc n (a_closed a) = None) ->
   items_ok a items.
 Proof.
   induction items as [|it r IH]; intros a Hs N Hf; cbn [items_ok]; [exact I|].
-  inversion Hs as [|? ? Hit Hr]; subst.
-  destruct it as [o | m | | c2]; cbn [new_names] in *.
-  - split; [exact Hit|]. apply IH; assumption.
+  destruct it as [o | m | | c2]; cbn [new_names static_ok] in *.
+  - destruct Hs as [Hit Hr]. split; [exact Hit|]. apply IH; [rewrite cfg_astep; exact Hr | assumption | assumption].
   - inversion N as [|? ? Hm Nr]; subst. destruct (Hf m (or_introl eq_refl)) as [Hm1 Hm2].
-    split; [split; assumption|]. apply IH; [assumption | assumption|].
+    split; [split; assumption|]. apply IH; [rewrite cfg_astep; exact Hs | assumption|].
     intros n Hn. destruct (Hf n (or_intror Hn)) as [Hn1 Hn2]. cbn [astep].
     destruct (a_cur a); cbn [a_cfg a_closed]; [|auto]. split; [exact Hn1|].
     rewrite assoc_snoc_other; [exact Hn2 | intros ->; contradiction].
-  - split; [exact I|]. apply IH; [assumption | assumption|].
+  - split; [exact I|]. apply IH; [rewrite cfg_astep; exact Hs | assumption|].
     intros n Hn. destruct (Hf n Hn) as [Hn1 Hn2]. cbn [astep]. destruct (a_cur a); cbn [a_cfg a_closed]; auto.
-  - inversion N as [|? ? Hm Nr]; subst. destruct (Hf _ (or_introl eq_refl)) as [Hm1 Hm2].
-    split; [split; [exact Hit | split; assumption]|]. apply IH; [assumption | assumption|].
+  - destruct Hs as [[Hit Hcap] Hr].
+    inversion N as [|? ? Hm Nr]; subst. destruct (Hf _ (or_introl eq_refl)) as [Hm1 Hm2].
+    split; [split; [exact Hit | split; [exact Hcap | split; assumption]]|]. apply IH; [exact Hr | assumption|].
     intros n Hn. destruct (Hf n (or_intror Hn)) as [Hn1 Hn2]. cbn [astep a_cfg a_closed].
     split; [intros ->; contradiction|].
     destruct (a_cur a); [|exact Hn2]. rewrite assoc_snoc_other; [exact Hn2 | exact Hn1].
 Qed.
 
 Theorem switches_tile_static c t0 off items :
-  norot c -> static_ok items -> NoDup (logname c :: new_names items) -> no_remove items ->
+  norot c -> static_ok c items -> NoDup (logname c :: new_names items) -> no_remove items ->
   let x := fst (run (sys0 t0 off) (OStart c :: flat c items ++ [OStop])) in
   exists files, dir_is (wfs (s_w x)) files /\ NoDup (List.map fst files)
     /\ stream files = written (flat c items) /\ werrs (s_w x) = [].
@@ -1013,18 +1046,18 @@ Print Assumptions reopen_after_remove.
 (* THEOREM 2.  reset to a configuration with another file name: the old file holds exactly the records logged
    before the reset (the old writer is dropped, which flushes its buffer), the new file exactly those logged after
    it.  A file exists only if a record was written to it: the new writer opens its file at the first write.
-   (The model's OReset accepts every new configuration; norot c2 says that the new one is synchronous as well and
-   has no rotation; the buffer capacities of c and c2 are arbitrary.) *)
+   (reset is accepted only for the same write mode - assert_write_mode -: both configurations are synchronous by
+   norot, and the buffer capacity has to be the same; see reset_other_write_mode_rejected for the other case.) *)
 Theorem reset_switches c c2 t0 off ops1 ops2 :
-  norot c -> norot c2 -> logname c2 <> logname c -> Forall wf_op ops1 -> Forall wf_op ops2 ->
+  norot c -> norot c2 -> c_cap c2 = c_cap c -> logname c2 <> logname c -> Forall wf_op ops1 -> Forall wf_op ops2 ->
   let x := fst (run (sys0 t0 off) (OStart c :: ops1 ++ [OReset c2] ++ ops2 ++ [OStop])) in
   dir_is (wfs (s_w x))
          ((if has_write ops1 then [(logname c, written ops1)] else [])
           ++ (if has_write ops2 then [(logname c2, written ops2)] else []))
   /\ werrs (s_w x) = [].
 Proof.
-  intros Hc Hc2 Hne H1 H2.
-  pose proof (one_switch c t0 off ops1 (IReset c2) ops2 Hc H1 H2 (conj Hc2 (conj Hne eq_refl))) as T.
+  intros Hc Hc2 Hcap Hne H1 H2.
+  pose proof (one_switch c t0 off ops1 (IReset c2) ops2 Hc H1 H2 (conj Hc2 (conj Hcap (conj Hne eq_refl)))) as T.
   cbv zeta in *. cbn [flat1] in T. unfold cur_after in T.
   destruct (has_write ops1) eqn:E1; destruct (has_write ops2) eqn:E2;
     cbn [astep a_cfg a_closed a_cur app] in T; unfold afiles, afinal in T; cbn [a_cfg a_closed a_cur app] in T;
@@ -1033,21 +1066,54 @@ Qed.
 Print Assumptions reset_switches.
 
 Corollary reset_switches_views c c2 t0 off ops1 ops2 :
-  norot c -> norot c2 -> logname c2 <> logname c -> Forall wf_op ops1 -> Forall wf_op ops2 ->
+  norot c -> norot c2 -> c_cap c2 = c_cap c -> logname c2 <> logname c -> Forall wf_op ops1 -> Forall wf_op ops2 ->
   has_write ops1 = true -> has_write ops2 = true ->
   let f := wfs (s_w (fst (run (sys0 t0 off) (OStart c :: ops1 ++ [OReset c2] ++ ops2 ++ [OStop])))) in
   fview f (logname c) = Some (written ops1) /\ fview f (logname c2) = Some (written ops2)
   /\ (forall n, n <> logname c -> n <> logname c2 -> fview f n = None)
   /\ Permutation (dir_names f) [logname c; logname c2].
 Proof.
-  intros Hc Hc2 Hne H1 H2 Hw1 Hw2.
-  destruct (reset_switches c c2 t0 off ops1 ops2 Hc Hc2 Hne H1 H2) as [(V & P & _) _].
+  intros Hc Hc2 Hcap Hne H1 H2 Hw1 Hw2.
+  destruct (reset_switches c c2 t0 off ops1 ops2 Hc Hc2 Hcap Hne H1 H2) as [(V & P & _) _].
   cbv zeta in *. rewrite Hw1, Hw2 in *. cbn [List.map fst app] in *.
   split; [rewrite V, assoc_cons, beq_refl; reflexivity|].
   split; [rewrite V, !assoc_cons, (beq_neq (logname c) (logname c2)), beq_refl by congruence; reflexivity|].
   split; [|exact P].
   intros n Hn1 Hn2. rewrite V, !assoc_cons, !beq_neq by congruence. reflexivity.
 Qed.
+
+(* a rejected reset in a history: it is as if it had not been there, all records go on to the old file *)
+Lemma run_skip_rejected_reset c c2 t0 off ops1 rest :
+  norot c -> c_cap c2 <> c_cap c -> Forall wf_op ops1 ->
+  fst (run (sys0 t0 off) (OStart c :: ops1 ++ [OReset c2] ++ rest)) = fst (run (sys0 t0 off) (OStart c :: ops1 ++ rest)).
+Proof.
+  intros Hc Hcap H1.
+  destruct (engine (List.map IOp ops1) (astart c) _ (start_StA c t0 off Hc) (items_ok_ops ops1 _ H1)) as (x1 & o1 & E1 & H).
+  cbn [astart a_cfg] in E1. rewrite flat_ops in E1. rewrite arun_ops in H.
+  destruct H as (_ & _ & H). cbn [astart a_cfg a_closed a_cur] in H. destruct (St_shape _ _ _ _ H) as (st & w & ->).
+  assert (R : forall l, fst (run (sys0 t0 off) (OStart c :: ops1 ++ l)) = fst (run (mksys (mkflw c st) w) l)).
+  { intros l.
+    change (run (sys0 t0 off) (OStart c :: ops1 ++ l))
+      with (let '(x2, obs) := run (mksys (mkflw c Initial) (world0 t0 off)) (ops1 ++ l) in (x2, ObsRes 0%N false :: obs)).
+    rewrite run_cat, E1. destruct (run (mksys (mkflw c st) w) l). reflexivity. }
+  rewrite !R. cbn [app run]. rewrite (reset_other_write_mode_rejected c c2 st w Hc Hcap).
+  destruct (run (mksys (mkflw c st) w) rest). reflexivity.
+Qed.
+
+Theorem reset_rejected_keeps_file c c2 t0 off ops1 ops2 :
+  norot c -> c_cap c2 <> c_cap c -> Forall wf_op ops1 -> Forall wf_op ops2 ->
+  let x := fst (run (sys0 t0 off) (OStart c :: ops1 ++ [OReset c2] ++ ops2 ++ [OStop])) in
+  dir_is (wfs (s_w x)) (if has_write (ops1 ++ ops2) then [(logname c, written (ops1 ++ ops2))] else [])
+  /\ werrs (s_w x) = [].
+Proof.
+  intros Hc Hcap H1 H2. cbv zeta. rewrite run_skip_rejected_reset by assumption.
+  assert (H12 : Forall wf_op (ops1 ++ ops2)) by (apply Forall_app; split; assumption).
+  destruct (switches_general c t0 off (List.map IOp (ops1 ++ ops2)) Hc (items_ok_ops _ _ H12)) as (D & _ & E & _).
+  cbv zeta in *. rewrite flat_ops, arun_ops, <- app_assoc in *. split; [|exact E].
+  unfold afiles, afinal, cur_after in D. cbn [astart a_cfg a_closed a_cur app] in D.
+  destruct (has_write (ops1 ++ ops2)); exact D.
+Qed.
+Print Assumptions reset_rejected_keeps_file.
 
 (* ================================================================== 8. the statements on concrete histories *)
 Definition sw_cfg (base : N) (cap : option nat) : config :=
@@ -1060,7 +1126,8 @@ Definition dir_list (x : sys) : list (bytes * bytes) :=
 Definition end_of (ops : list op) : sys := fst (run (sys0 0%Z 0%Z) ops).
 
 Definition ex_c := sw_cfg 97%N (Some 8).                    (* a.log, BufWriter with capacity 8 *)
-Definition ex_c2 := sw_cfg 98%N None.                       (* b.log, unbuffered *)
+Definition ex_c2 := sw_cfg 98%N (Some 8).                   (* b.log, the same write mode *)
+Definition ex_c3 := sw_cfg 98%N None.                       (* b.log, unbuffered: another write mode *)
 Definition a_log : bytes := [97; 46; 108; 111; 103]%N.
 Definition a_old : bytes := [97; 46; 111; 108; 100]%N.
 Definition b_log : bytes := [98; 46; 108; 111; 103]%N.
@@ -1073,12 +1140,13 @@ Proof. split; vm_compute; reflexivity. Qed.
 
 Example ex_hyps : norot ex_c /\ norot ex_c2 /\ Forall wf_op ex_ops1 /\ Forall wf_op ex_ops2
                   /\ a_old <> logname ex_c /\ logname ex_c2 <> logname ex_c
-                  /\ has_write ex_ops1 = true /\ has_write ex_ops2 = true.
+                  /\ has_write ex_ops1 = true /\ has_write ex_ops2 = true
+                  /\ c_cap ex_c2 = c_cap ex_c /\ c_cap ex_c3 <> c_cap ex_c.
 Proof.
   split; [repeat split|]. split; [repeat split|].
   split; [repeat constructor|]. split; [repeat constructor|].
   split; [intros H; vm_compute in H; discriminate|]. split; [intros H; vm_compute in H; discriminate|].
-  split; reflexivity.
+  split; [reflexivity|]. split; [reflexivity|]. split; [reflexivity | discriminate].
 Qed.
 
 (* Theorem 1 on a history: at the time of the rename nothing has reached the file, the five bytes are in the
@@ -1112,7 +1180,7 @@ Example ex_remove :
   = [(a_log, [6; 7; 8]%N)].
 Proof. vm_compute; reflexivity. Qed.
 
-(* Theorem 2 on a history: reset from a.log (buffered) to b.log (unbuffered) *)
+(* Theorem 2 on a history: reset from a.log to b.log (both with a buffer of 8 bytes) *)
 Example ex_reset :
   dir_list (end_of (OStart ex_c :: ex_ops1)) = [(a_log, [])]
   /\ dir_list (end_of (OStart ex_c :: ex_ops1 ++ [OReset ex_c2] ++ ex_ops2 ++ [OStop]))
@@ -1122,15 +1190,25 @@ Example ex_reset_thm :
   dir_is (wfs (s_w (end_of (OStart ex_c :: ex_ops1 ++ [OReset ex_c2] ++ ex_ops2 ++ [OStop]))))
          [(logname ex_c, written ex_ops1); (logname ex_c2, written ex_ops2)].
 Proof.
-  destruct ex_hyps as (Hc & Hc2 & H1 & H2 & Hm & Hne & _).
-  exact (proj1 (reset_switches ex_c ex_c2 0%Z 0%Z ex_ops1 ex_ops2 Hc Hc2 Hne H1 H2)).
+  destruct ex_hyps as (Hc & Hc2 & H1 & H2 & Hm & Hne & _ & _ & Hcap & _).
+  exact (proj1 (reset_switches ex_c ex_c2 0%Z 0%Z ex_ops1 ex_ops2 Hc Hc2 Hcap Hne H1 H2)).
 Qed.
+
+(* a reset to another write mode: rejected with an error result, the records after it go to a.log as well *)
+Example ex_reset_rejected :
+  snd (run (sys0 0%Z 0%Z) (OStart ex_c :: ex_ops1 ++ [OReset ex_c3]))
+  = [ObsRes 0 false; ObsRes 0 false; ObsRes 0 false; ObsRes 0 false; ObsRes 1 false]
+  /\ end_of (OStart ex_c :: ex_ops1 ++ [OReset ex_c3]) = end_of (OStart ex_c :: ex_ops1)
+  /\ dir_list (end_of (OStart ex_c :: ex_ops1 ++ [OReset ex_c3] ++ ex_ops2 ++ [OStop]))
+     = [(a_log, [1; 2; 3; 4; 5; 6; 7; 8]%N)]
+  /\ dir_list (end_of (OStart ex_c :: [OReset ex_c3] ++ ex_ops2 ++ [OStop])) = [(a_log, [6; 7; 8]%N)].
+Proof. repeat split; vm_compute; reflexivity. Qed.
 
 (* Theorem 3 on a history with three switches *)
 Definition ex_items : list item :=
   List.map IOp ex_ops1 ++ [IRename a_old] ++ List.map IOp ex_ops2 ++ [IReset ex_c2]
   ++ [IOp (OWrite [9; 10]%N); IRename b_old; IOp (OPlain [11]%N)].
-Example ex_tile_hyps : static_ok ex_items /\ NoDup (logname ex_c :: new_names ex_items) /\ no_remove ex_items.
+Example ex_tile_hyps : static_ok ex_c ex_items /\ NoDup (logname ex_c :: new_names ex_items) /\ no_remove ex_items.
 Proof.
   split; [repeat constructor|]. split.
   - vm_compute. repeat constructor; cbn [In]; intros H; repeat (destruct H as [H|H]; [discriminate|]); exact H.
